@@ -302,6 +302,31 @@ ValidIcdf(t, ftb) ==
   /\ t[1] < Pow2(ftb)
 IcdfSymbolAt(t, q) == Cardinality({j \in 1..Len(t) : t[j] > q})     \* for a valid table
 
+\* ---- the p0/decay Laplace code (ec_laplace_encode_p0 / ec_laplace_decode_p0, celt/laplace.c) ----------------------
+\* A sign symbol {0, +, -} with P(0) = p0 / 2^15 and the rest split evenly, then - for a non-zero value - the magnitude
+\* minus one in base-7 "escape" digits: symbol 7 means "seven more, another symbol follows", a symbol 0..6 ends the value.
+\* Both tables are computed at run time from (p0, decay); 15-bit scale.
+P0Domain(p0, dc) == p0 \in 1..32766 /\ dc \in 0..32767
+P0SignIcdf(p0) == <<32768 - p0, (32768 - p0) \div 2, 0>>
+P0Icdf(dc) ==
+  LET F[i \in 0..6] == IF i = 0 THEN Max(7, dc) ELSE Max(7 - i, (F[i - 1] * dc) \div 32768)
+  IN [j \in 1..8 |-> IF j = 8 THEN 0 ELSE F[j - 1]]
+\* the magnitude symbols of a value v # 0
+P0Symbols(v) == LET m == Abs(v) - 1 IN [j \in 1..(m \div 7 + 1) |-> IF j <= m \div 7 THEN 7 ELSE m % 7]
+\* what a decoder that reads symbols until one differs from 7 makes of a symbol string (and how many it consumed)
+RECURSIVE P0Read(_, _, _)
+P0Read(syms, j, acc) == IF j > Len(syms) THEN [mag |-> -1, used |-> j - 1]           \* ran off the end: not self-delimiting
+                        ELSE IF syms[j] = 7 THEN P0Read(syms, j + 1, acc + 7)
+                        ELSE [mag |-> acc + syms[j], used |-> j]
+\* theorems: both tables are proper inverse CDFs on the 15-bit scale (so the symbol intervals tile the range), and the
+\* magnitude code is a prefix-free bijection: the string written for v is read back as |v| and ends exactly there,
+\* whatever follows it
+P0TablesOK(p0, dc) == ValidIcdf(P0SignIcdf(p0), 15) /\ ValidIcdf(P0Icdf(dc), 15)
+P0PrefixFree(v) == LET sy == P0Symbols(v)  rd == P0Read(sy \o <<3, 7, 0>>, 1, 1) IN
+                   /\ rd.mag = Abs(v) /\ rd.used = Len(sy)
+                   /\ \A j \in 1..Len(sy) - 1 : sy[j] = 7
+                   /\ sy[Len(sy)] \in 0..6
+
 \* ------------------------------------------------------------------------
 \* 4. pulse cache of the static mode (celt/rate.h get_pulses, rate.c compute_pulse_cache)
 MAX_PSEUDO == 40
